@@ -464,61 +464,105 @@ func valueKind(v ssa.Value) string {
 }
 
 // dropEdges lists the conditional edges of the region after which no forward event is
-// reachable (before the region's end) while the sibling edge can still reach one.
-func dropEdges(start ipos, end func(ssa.Instruction) bool, fwd func(ssa.Instruction) bool) []string {
-	canFwd := map[*ssa.BasicBlock]int{} // 0 unknown 1 yes 2 no
-	var can func(b *ssa.BasicBlock, seen map[*ssa.BasicBlock]bool) bool
-	can = func(b *ssa.BasicBlock, seen map[*ssa.BasicBlock]bool) bool {
-		if seen[b] {
-			return false
-		}
-		seen[b] = true
-		for _, in := range b.Instrs {
-			if fwd(in) {
-				return true
-			}
-			if end(in) {
+// reachable (before the region's end) while the sibling edge can still reach one. A call
+// of a private helper that may forward counts as a forward for reachability and its own
+// drop edges are collected recursively; a drop edge guarded by the boolean result of a
+// private helper is reported by the kinds of the conditions that decide that result.
+func dropEdges(p *Prog, start ipos, end func(ssa.Instruction) bool, fwd func(ssa.Instruction) bool) []string {
+	lifted := mayDo(p, fwd)
+	seenFn := map[*ssa.Function]bool{}
+	var out []string
+	var collect func(start ipos, end func(ssa.Instruction) bool)
+	collect = func(start ipos, end func(ssa.Instruction) bool) {
+		var can func(b *ssa.BasicBlock, seen map[*ssa.BasicBlock]bool) bool
+		can = func(b *ssa.BasicBlock, seen map[*ssa.BasicBlock]bool) bool {
+			if seen[b] {
 				return false
 			}
+			seen[b] = true
+			for _, in := range b.Instrs {
+				if lifted(in) {
+					return true
+				}
+				if end(in) {
+					return false
+				}
+			}
+			for _, s := range b.Succs {
+				if can(s, seen) {
+					return true
+				}
+			}
+			return false
 		}
-		for _, s := range b.Succs {
-			if can(s, seen) {
-				return true
+		seenB := map[*ssa.BasicBlock]bool{}
+		var walk func(ps ipos)
+		walk = func(ps ipos) {
+			if ps.i == 0 {
+				if seenB[ps.b] {
+					return
+				}
+				seenB[ps.b] = true
+			}
+			for i := ps.i; i < len(ps.b.Instrs); i++ {
+				in := ps.b.Instrs[i]
+				if h := helperCallee(in); h != nil && lifted(in) && !fwd(in) && !seenFn[h] {
+					seenFn[h] = true
+					collect(entryPos(h), isReturn)
+				}
+				if lifted(in) || end(in) {
+					return
+				}
+			}
+			if iff, ok := ps.b.Instrs[len(ps.b.Instrs)-1].(*ssa.If); ok && ps.b.Succs[0] != ps.b.Succs[1] {
+				c0 := can(ps.b.Succs[0], map[*ssa.BasicBlock]bool{})
+				c1 := can(ps.b.Succs[1], map[*ssa.BasicBlock]bool{})
+				if c0 != c1 {
+					out = append(out, helperGuardKinds(iff.Cond, !c0)...)
+				}
+			}
+			for _, s := range ps.b.Succs {
+				walk(ipos{s, 0})
 			}
 		}
-		return false
+		walk(start)
 	}
-	_ = canFwd
-	var out []string
-	seenB := map[*ssa.BasicBlock]bool{}
-	var walk func(p ipos)
-	walk = func(p ipos) {
-		if p.i == 0 {
-			if seenB[p.b] {
-				return
-			}
-			seenB[p.b] = true
-		}
-		for i := p.i; i < len(p.b.Instrs); i++ {
-			in := p.b.Instrs[i]
-			if fwd(in) || end(in) {
-				return
-			}
-		}
-		if iff, ok := p.b.Instrs[len(p.b.Instrs)-1].(*ssa.If); ok && p.b.Succs[0] != p.b.Succs[1] {
-			c0 := can(p.b.Succs[0], map[*ssa.BasicBlock]bool{})
-			c1 := can(p.b.Succs[1], map[*ssa.BasicBlock]bool{})
-			if c0 != c1 {
-				out = append(out, guardKind(iff.Cond, !c0))
-			}
-		}
-		for _, s := range p.b.Succs {
-			walk(ipos{s, 0})
-		}
-	}
-	walk(start)
+	collect(start, end)
 	sort.Strings(out)
 	return out
+}
+
+// helperGuardKinds: the kind of a guard; when the guard is the boolean result of a private
+// helper, the kinds of the conditions inside the helper that decide its result.
+func helperGuardKinds(cond ssa.Value, val bool) []string {
+	c := cond
+	for {
+		u, ok := c.(*ssa.UnOp)
+		if ok && u.Op == token.NOT {
+			c = u.X
+			continue
+		}
+		break
+	}
+	if call, ok := c.(*ssa.Call); ok {
+		if h := helperCallee(call); h != nil {
+			var out []string
+			instrsOf(h, func(in ssa.Instruction) {
+				if iff, ok := in.(*ssa.If); ok {
+					k := guardKind(iff.Cond, true)
+					k = strings.TrimPrefix(k, "!")
+					if strings.HasPrefix(k, "phi(") && strings.Contains(k, "rangeindex") || strings.Contains(k, "<") {
+						return // loop control
+					}
+					out = append(out, "helper:"+k)
+				}
+			})
+			if len(out) > 0 {
+				return out
+			}
+		}
+	}
+	return []string{guardKind(cond, val)}
 }
 
 func runC01(c *Ctx) {
@@ -670,7 +714,7 @@ func runC01(c *Ctx) {
 	// R3 drop edges
 	o = c.Obl("R3", "vnet.drop-edges", "a datagram is dropped only on the enumerated edges (user filter refused, destination NIC not found, no parent, NAT refused/returned nothing, router stopped, queue full, not UDP, no socket bound, socket closed, receive queue full); any other drop edge loses an admissible datagram", 6)
 	allowed := map[*ssa.Function][]string{
-		pc:       {"phi(blocked)", "!lookup(vnet.Router.nics)#1", "field(vnet.Router.parent)==nil", "(*vnet.networkAddressTranslator).translateOutbound#1!=nil", "(*vnet.networkAddressTranslator).translateOutbound#0==nil",
+		pc:       {"phi(blocked)", "helper:dynamic(vnet.Router.chunkFilters[])", "helper:dynamic", "!lookup(vnet.Router.nics)#1", "field(vnet.Router.parent)==nil", "(*vnet.networkAddressTranslator).translateOutbound#1!=nil", "(*vnet.networkAddressTranslator).translateOutbound#0==nil",
 			"!(*vnet.chunkQueue).pop#1" /* nothing was dequeued */},
 		rpush:    {"field(vnet.Router.stopFunc)==nil", "!(*vnet.chunkQueue).push"},
 		rIn:      {"(*vnet.networkAddressTranslator).translateInbound#1!=nil"},
@@ -688,7 +732,7 @@ func runC01(c *Ctx) {
 			st = posAfter(pop)
 			end = func(in ssa.Instruction) bool { return isReturn(in) || isQueueCall(in, "peek") || isQueueCall(in, "pop") }
 		}
-		got := dropEdges(st, end, fwdIn[f])
+		got := dropEdges(p, st, end, fwdIn[f])
 		o.Site(f.Pos(), "%s: drop edges %v", fname(f), got)
 		al := map[string]bool{}
 		for _, a := range allowed[f] {
